@@ -12,6 +12,10 @@ import (
 func main() {
 	w := vc.NewWriter(os.Args[1])
 	defer w.Close()
+	if len(os.Args) > 2 && os.Args[2] == "target" {
+		targetPart(w, vc.NewRand(vc.Seed()))
+		return
+	}
 	if len(os.Args) > 2 && os.Args[2] == "enforce" {
 		enforcePart(w, vc.NewRand(vc.Seed()))
 		return
